@@ -536,6 +536,9 @@ func c15generated(c *fw.Check) {
 	if !c.Quick() {
 		bound = 2
 	}
+	if c.Deep() {
+		bound = 3
+	}
 	all, batches := genBatches(gen.Catalogue(), bound, 40)
 	var mu sync.Mutex
 	users, slots := 0, 0
